@@ -1223,6 +1223,12 @@ class FnRun:
             ty, kind = rv[2], rv[3]
             if kind == 'IntToInt':
                 return E.cast_int(v, ty)
+            if kind == 'Transmute' and ty.strip() == 'usize' and isinstance(v, Ref) and v.cell in getattr(E, 'box_cells', ()):
+                # the address of a fresh Box allocation (the `vec![..]` literal): only its alignment / null checks look
+                # at it. A Box is aligned for its type and never null: the address is some non-zero multiple of 4096.
+                a = z3.Int('boxaddr!%d' % v.cell)
+                E.assume(z3.And(a > 0, a < (1 << 47), a % 4096 == 0), ('boxaddr', v.cell))
+                return I(a, 'usize')
             if kind in ('Transmute', 'PtrToPtr', 'PointerCoercion(Unsize, Implicit)', 'PointerCoercion(Unsize, AsCast)',
                         'PointerCoercion(MutToConstPointer, Implicit)', 'Subtype'):
                 if isinstance(v, Ref):
